@@ -14,7 +14,7 @@ RESP = [
     ("prop(s, n)", "prop:col"), ("prop(s, 7)", "prop:const"), ("p(s, n)", "prop:col"), ("proportion(s, n)", "prop:col"),
     ("inc['>50K']", "level:inc:>50K"), ('inc["n/a"]', "level:inc:n/a"), ("inc['St. Louis']", "level:inc:St. Louis"), ("inc", "cat"),
     ("prop(s, n)", "prop:col:big"),
-    ("y:z", "refused"), ("y + z", "refused"), ("f:g", "refused"), ("y*z", "refused"), (None, "none"),
+    ("y:z", "refused"), ("y + z", "refused"), ("f:g", "refused"), ("y*z", "refused"), ("g[t] + g[s]", "refused"), ("g + g[t]", "refused"), ("g[t]:g[u]", "refused"), (None, "none"),
 ]
 
 
